@@ -492,6 +492,51 @@ def _constant_expr(e):
     return False
 
 
+def new_params_as_defaults(tree, modname):
+    """A parameter the reference function does not have, with a default, is a hook for new callers; every existing caller -
+    and every behaviour the properties speak about - runs with the default.  Its reads are replaced by the default value (a
+    name, an attribute of a module, a literal) so that the body reads as it did before the hook was threaded through."""
+    if os.environ.get("PDSA_NO_ALPHA"):
+        return {}
+    ref = _ref()
+    applied = {}
+    import copy
+    for q, fn in functions_of(tree, modname):
+        rp = ref.get("@params:" + q)
+        if rp is None:
+            continue
+        a = fn.args
+        pos = a.posonlyargs + a.args
+        defaults = {}
+        for arg, d in zip(pos[len(pos) - len(a.defaults):], a.defaults):
+            defaults[arg.arg] = d
+        for arg, d in zip(a.kwonlyargs, a.kw_defaults):
+            if d is not None:
+                defaults[arg.arg] = d
+        stored = {x.id for x in _own_nodes(fn) if isinstance(x, ast.Name) and isinstance(x.ctx, (ast.Store, ast.Del))}
+        for name, d in defaults.items():
+            if name in rp or name in stored:
+                continue
+            if not (isinstance(d, (ast.Name, ast.Constant)) or (isinstance(d, ast.Attribute) and isinstance(d.value, ast.Name))):
+                continue
+            n = 0
+            for holder in ast.walk(fn):
+                if holder is fn.args:
+                    continue
+                for fld, val_ in ast.iter_fields(holder):
+                    if isinstance(val_, ast.Name) and val_.id == name and isinstance(val_.ctx, ast.Load) and holder is not fn:
+                        setattr(holder, fld, copy.deepcopy(d))
+                        n += 1
+                    elif isinstance(val_, list):
+                        for j_, item in enumerate(val_):
+                            if isinstance(item, ast.Name) and item.id == name and isinstance(item.ctx, ast.Load):
+                                val_[j_] = copy.deepcopy(d)
+                                n += 1
+            if n:
+                applied.setdefault(q, []).append(name)
+    return applied
+
+
 def _blocks(fn):
     out = []
     stack = [fn]
@@ -531,6 +576,7 @@ def build_reference(repo_pkg_dir, pkg="pydrobert.speech"):
             s = signatures(fn)
             table[q] = s
             table["@ops:" + q] = operand_orders(fn)
+            table["@params:" + q] = sorted(params_of(fn))
         table["@module:" + modname] = {"names": sorted(module_names(tree))}
         for cq, cnode in classes_of(tree, modname):
             table["@class:" + cq] = attr_signatures(cnode)
